@@ -22,7 +22,7 @@ import (
 // the same in both modes, so source and options are the same: the bytes have to be.
 //
 //	go_ inproc chain kind=enumtrait order=ab|ba o=<jytcd>     color.go then shape.go (ab); shape.go, color.go, shape.go again (ba)
-//	go_ inproc chain kind=edit gen=genum|gerror|gsort         definition v1, edited to v2 (one more value / field / sorter), back to v1
+//	go_ inproc chain kind=edit gen=genum|gerror|gsort [steps=2]  definition v1, edited to v2 (one more value / field / sorter), back to v1
 
 type chainStep struct {
 	label string
@@ -99,7 +99,11 @@ func chainOf(ws []string) ([]chainStep, error) {
 			return nil, fmt.Errorf("bad generator")
 		}
 		var steps []chainStep
-		for i, h := range []string{h1, h2, h1} {
+		hs := []string{h1, h2, h1}
+		if m["steps"] == "2" {
+			hs = hs[:2]
+		}
+		for i, h := range hs {
 			it, err := parseHeader(h)
 			if err != nil {
 				return nil, err
